@@ -251,6 +251,8 @@ func RunFaultScenario(t *testing.T, sc *Scenario) (w *World) {
 			}
 		}
 	}()
+	hang.begin(sc)
+	defer hang.end()
 	synctest.Test(t, func(t *testing.T) {
 		w = NewWorld(t, sc)
 		w.installCallbackFaults()
@@ -418,6 +420,7 @@ func (w *World) faultTarget(op *Op) *Tree {
 // RunFaultEnumShard is the main loop of a C12 shard.
 func RunFaultEnumShard(t *testing.T, env *ShardEnv) *ShardReport {
 	rep := newShardReport(env.Prop, "faultenum", env.Shard, env.Tier, env.Seed)
+	liveReport = rep
 	start := time.Now()
 	shardSeed := mixSeed(env.Seed, strSeed(env.Prop), uint64(env.Shard))
 	nt := map[uint64]bool{}
